@@ -106,14 +106,16 @@ def evaluate(ctx, n, with_second=True):
     verdicts = []
     for k in range(0, len(items), 200):
         text = ('From Coq Require Import List String.\nFrom NA Require Import Robust.GoStr Panos.Device Panos.Oracle Panos.Rules Panos.Proofs Panos.Check.\nImport ListNotations.\nOpen Scope string_scope.\n'
-                'Definition V := Eval vm_compute in map (fun c => (judge c, already_equiv c, plan_verdict (names (pc_dev c)) (pc_ops c))) %s.\nPrint V.\n' % C.clist(items[k:k + 200]))
+                'Definition V := Eval vm_compute in map (fun c => (judge c, already_equiv c, plan_verdict (names (pc_dev c)) (pc_ops c), uniq_verdict (names (pc_dev c)) (names (pc_tgt c)) (pc_ops c))) %s.\nPrint V.\n' % C.clist(items[k:k + 200]))
         verdicts += parse_coq_term(ctx.coq_eval('c03_%d' % k, text))
     if len(verdicts) != len(items):
         raise RuntimeError('verdict count %d != %d' % (len(verdicts), len(items)))
     second, second_meta = [], []
     nontrivial = 0
     for (i, name, rep, has_cmds), v in zip(meta, verdicts):
-        (pos, why, conv, unused, rendered, already, pv) = v
+        (pos, why, conv, unused, rendered, already, pv, uv) = v
+        if uv != 'true':
+            breaks.append(dict(correspondence='a new rule is sent under a name that Panos/Uniq.v (genUniqRuleNames) does not compute', case=dict(rep, vsys=name)))
         if pv:
             breaks.append(dict(correspondence='rule commands are not the plan of Panos/Rules.v for the reconstructed edit script (%s)' % ('shape' if pv == 1 else 'hypotheses'), case=dict(rep, vsys=name)))
         conv, already = (conv == 'true'), (already == 'true')
